@@ -283,6 +283,31 @@ def immutable_values(run, model, rule="C12.immutable-values"):
     return n_sites
 
 
+def _free_in_closure(fi, name):
+    """``name`` is a free variable of the nested function ``fi`` bound by an enclosing function (not a parameter, not
+    assigned in ``fi`` itself)."""
+    if fi.parent is None:
+        return False
+    a = fi.node.args
+    own = set(x.arg for x in a.posonlyargs + a.args + a.kwonlyargs) | ({a.vararg.arg} if a.vararg else set()) | ({a.kwarg.arg} if a.kwarg else set())
+    for sub in ast.walk(fi.node):
+        if _owner(fi, sub) is fi and isinstance(sub, ast.Name) and isinstance(sub.ctx, (ast.Store, ast.Del)):
+            own.add(sub.id)
+    if name in own:
+        return False
+    p = fi.parent
+    while p is not None:
+        pa = p.node.args
+        bound = set(x.arg for x in pa.posonlyargs + pa.args + pa.kwonlyargs)
+        for sub in ast.walk(p.node):
+            if _owner(p, sub) is p and isinstance(sub, ast.Name) and isinstance(sub.ctx, ast.Store):
+                bound.add(sub.id)
+        if name in bound:
+            return True
+        p = p.parent
+    return False
+
+
 def no_other_state(run, model, rule="C12.no-other-state"):
     """No store to state that outlives the call, in anything reachable from the six wrappers at call time."""
     wrappers = find_wrappers(model)
@@ -317,11 +342,18 @@ def no_other_state(run, model, rule="C12.no-other-state"):
                     bt = flow.term(tg.value, n)
                     if bt == ("param", "self") and fi.cls is not None:
                         continue  # attributes of the object under construction / the per-violation visitor
+                    if strip_sites(bt)[0] == "closure" or (isinstance(tg.value, ast.Name) and _free_in_closure(fi, tg.value.id)):
+                        bad.append((st, "stores attribute `%s` on the closure variable %s at call time (one object per decorated function, shared by all calls, threads and tasks)" % (tg.attr, show(strip_sites(bt), 60))))
+                        continue
                     if meta.ownership(model, bt, summ) == "fresh":
                         continue
                     bad.append((st, "stores attribute `%s` on %s at call time (an object that outlives the call)" % (tg.attr, show(strip_sites(bt), 60))))
                 elif isinstance(tg, ast.Subscript):
                     bt = flow.term(tg.value, n)
+                    if strip_sites(bt)[0] == "closure" or (isinstance(tg.value, ast.Name) and _free_in_closure(fi, tg.value.id)):
+                        # a container of the enclosing factory: created once per decorated function, shared by all its calls
+                        bad.append((st, "stores an item into the closure variable %s at call time (one object per decorated function, shared by all calls, threads and tasks)" % show(strip_sites(bt), 60)))
+                        continue
                     own = meta.ownership(model, bt, summ)
                     if own == "fresh" or (bt[0] == "call" and fi_of_term(model, bt[1]) is not None and meta.ownership(model, bt, summ) == "fresh"):
                         continue
@@ -409,6 +441,19 @@ def ctxvar_readable(run, model, rule="C12.readable-everywhere"):
             for p in ast.walk(fi.node):
                 for c in ast.iter_child_nodes(p):
                     parents[id(c)] = p
+            # ``read = cv.get`` bound to a local and called as ``read()``: the binding is the read (without a fallback)
+            bound_alias = [a for a in ast.walk(fi.node) if isinstance(a, ast.Attribute) and a.attr == "get" and isinstance(a.value, ast.Name) and a.value.id == cv[2] and isinstance(a.ctx, ast.Load) and not isinstance(parents.get(id(a)), ast.Call)]
+            for a in bound_alias:
+                p, own = parents.get(id(a)), True
+                while p is not None and p is not fi.node:
+                    if isinstance(p, (ast.FunctionDef, ast.AsyncFunctionDef, ast.Lambda)):
+                        own = False
+                        break
+                    p = parents.get(id(p))
+                if not own:
+                    continue
+                seen += 1
+                run.check(default is not None, rule, fi.qual, "`%s` bound to a local: the variable has a default, the read cannot fail" % src_of(a), "`%s.get` is bound to a local and called without a fallback, and `%s` is created without `default=`" % (cv[2], cv[2]), fi.loc(a), None, first_line(a))
             for call in ast.walk(fi.node):
                 if not (isinstance(call, ast.Call) and isinstance(call.func, ast.Attribute) and call.func.attr == "get" and isinstance(call.func.value, ast.Name) and call.func.value.id == cv[2]):
                     continue
